@@ -224,8 +224,10 @@ def _all_values(obj, props):
     return vals
 
 
-def _check_index(scene, kind, idx, pre, scalar, twin=False):
-    """-> None or (prop, message)."""
+def _check_index(scene, kind, idx, pre, scalar, twin=False, perm=False):
+    """-> None or (prop, message).  ``perm``: the label / id selection is
+    made on a catalog whose rows were first permuted with a fancy index (ids
+    and labels no longer ascending)."""
     make = _maker(scene)
     ref = _cache.get(('full', scene))
     if ref is None:
@@ -240,7 +242,17 @@ def _check_index(scene, kind, idx, pre, scalar, twin=False):
         for p in pre:
             getattr(cat, p)
         if kind in ('label', 'labels'):
-            if scene == 'stats':
+            if perm:
+                ids0 = np.asarray(cat.ids if scene == 'stats' else cat.labels)
+                cat = cat[[2, 0, 3, 1]]
+                sel = ids0[idx]
+                if scene == 'stats':
+                    child = cat.get_id(sel) if kind == 'label' else \
+                        cat.get_ids(list(sel))
+                else:
+                    child = cat.get_label(sel) if kind == 'label' else \
+                        cat.get_labels(list(sel))
+            elif scene == 'stats':
                 ids = np.asarray(cat.ids)
                 child = cat.get_id(ids[idx]) if kind == 'label' else \
                     cat.get_ids(list(ids[idx]))
@@ -267,6 +279,8 @@ def _check_index(scene, kind, idx, pre, scalar, twin=False):
                            f'cat.{p}[{idx!r}] = {str(exp)[:120]}')
         # and the parent is untouched by the indexing
         for p in pre:
+            if perm:
+                break
             if not _eq(getattr(cat, p), full[p]):
                 return p, f'parent.{p} changed by indexing'
     return None
@@ -302,12 +316,13 @@ def _run_index(case):
             p1 = ctx.choice('pre1', case['pairs'])
             if p1 != '-':
                 pre.append(p1)
+        perm = ctx.flag('perm') if kind in ('label', 'labels') else False
         ctx.stats.obligations += 1
         cnt['n'] += 1
         bad = _check_index(scene, kind, idx, pre, scalar,
-                           twin=bool(case.get('twin')))
+                           twin=bool(case.get('twin')), perm=perm)
         params = dict(kind='index', scene=scene, ikind=kind,
-                      idx=_ser(idx), pre=pre, scalar=scalar)
+                      idx=_ser(idx), pre=pre, scalar=scalar, perm=perm)
         if bad is None:
             ctx.stats.unsat += 1
         else:
@@ -509,5 +524,5 @@ def replay(f):
                            bool(p.get('preread')), p.get('scene', 'mixed'))
         return msg is not None, str(msg)
     bad = _check_index(p['scene'], p['ikind'], _deser(p['idx']), p['pre'],
-                       p['scalar'])
+                       p['scalar'], perm=bool(p.get('perm')))
     return bad is not None, str(bad)
